@@ -130,8 +130,9 @@ def _outside_callee(code, pkg_dir):
 class FailAt(_Base):
     """raises InjectedFault at the index-th LINE (or CALL) event inside the library"""
 
-    def __init__(self, pkg_dir, index, kind="L", skip_callees=()):
+    def __init__(self, pkg_dir, index, kind="L", skip_callees=(), exc=None):
         super().__init__(pkg_dir)
+        self.exc = exc or InjectedFault  # exception CLASS raised at the failpoint
         self.index = index
         self.kind = kind
         self.n = 0
@@ -153,7 +154,7 @@ class FailAt(_Base):
                 self.fired = True
                 self.where = "%s:%s:%d" % (code.co_filename[base:], code.co_name, line)
                 self.event = ("L", code.co_filename[base:], code.co_name, line)
-                raise InjectedFault("injected at line event %d (%s)" % (i, self.where))
+                raise self.exc("injected at line event %d (%s)" % (i, self.where))
 
         def on_call(code, offset, callable_, arg0):
             if not code.co_filename.startswith(self.pkg_dir):
@@ -165,7 +166,7 @@ class FailAt(_Base):
                 self.fired = True
                 self.where = "%s:%s:call %s" % (code.co_filename[base:], code.co_name, name)
                 self.event = ("C", code.co_filename[base:], code.co_name, -1, name)
-                raise InjectedFault("injected before call event %d (%s)" % (i, self.where))
+                raise self.exc("injected before call event %d (%s)" % (i, self.where))
 
         def on_start(code, offset):
             caller = _outside_callee(code, self.pkg_dir)
@@ -177,7 +178,7 @@ class FailAt(_Base):
                 self.fired = True
                 self.where = "%s:%s:entry of %s" % (caller.co_filename[base:], caller.co_name, getattr(code, "co_qualname", code.co_name))
                 self.event = ("S", caller.co_filename[base:], caller.co_name, -1, getattr(code, "co_qualname", code.co_name))
-                raise InjectedFault("injected at callee entry event %d (%s)" % (i, self.where))
+                raise self.exc("injected at callee entry event %d (%s)" % (i, self.where))
 
         mon.register_callback(TOOL, EV.LINE, on_line)
         mon.register_callback(TOOL, EV.CALL, on_call)
